@@ -17,6 +17,14 @@ package main
 //	(8,0) transport close      c.conn.Close() / c.pconn.Close()
 //	(9,0) transport read       c.rawInput.ReadFrom(…) in readFromUntil / c.pconn.ReadFrom (may park the
 //	                           goroutine until the peer sends or the transport is closed)
+//	(10,0) loop begin / (11,0) loop end   only in lockWriteSections (see below): a `for` / `range`
+//	                           statement whose header or body contains an event
+//
+// lockWriteSections repeats the walk of the Write-like API methods (Write, WriteTo), from the statement
+// after their handshake call on, with the loop markers switched on: "all records of one Write leave under ONE acquisition of `out`" is a
+// statement about what is inside and what is outside the record loop, which the plain programs
+// (loop bodies once) cannot express — a Write that takes and releases `out` once per slice of the
+// caller's buffer has the same plain program as one that holds it across the whole buffer.
 //
 // The walk is flow-insensitive: statements in source order, both arms of every conditional,
 // loop bodies once, callees inline (receiver types are resolved syntactically: receiver
@@ -71,6 +79,8 @@ type lockWalker struct {
 	pairs   map[[2]int]bool
 	touches map[string]bool // function keys whose closure contains an event
 	fnVals  map[string][]string
+	// markLoops: bracket every for/range statement that produces events with (10,0) … (11,0)
+	markLoops bool
 }
 
 func baseTypeName(e ast.Expr) string {
@@ -452,6 +462,7 @@ func (w *lockWalker) walkFunc(key string, fr frame, stack []string) {
 func (w *lockWalker) walkBody(body *ast.BlockStmt, env map[string]string, fr frame, stack []string) {
 	var deferred []func()
 	var visit func(n ast.Node) bool
+	var inLoop func(parts ...ast.Node)
 	handleCall := func(ce *ast.CallExpr, isDefer bool) {
 		// arguments first (evaluated before the call, also for defer)
 		for _, a := range ce.Args {
@@ -505,13 +516,53 @@ func (w *lockWalker) walkBody(body *ast.BlockStmt, env map[string]string, fr fra
 		case *ast.CallExpr:
 			handleCall(s, false)
 			return false
+		case *ast.ForStmt:
+			if !w.markLoops {
+				return true
+			}
+			inLoop(s.Init, s.Cond, s.Post, s.Body)
+			return false
+		case *ast.RangeStmt:
+			if !w.markLoops {
+				return true
+			}
+			inLoop(s.X, s.Body)
+			return false
 		}
 		return true
+	}
+	inLoop = func(parts ...ast.Node) {
+		start := len(*fr.events)
+		*fr.events = append(*fr.events, lockEv{10, 0})
+		for _, n := range parts {
+			// a nil *ast.BlockStmt / ast.Expr / ast.Stmt stored in the interface is not == nil
+			if n == nil || isNilNode(n) {
+				continue
+			}
+			ast.Inspect(n, visit)
+		}
+		if len(*fr.events) == start+1 {
+			*fr.events = (*fr.events)[:start] // nothing happens in this loop
+			return
+		}
+		*fr.events = append(*fr.events, lockEv{11, 0})
 	}
 	ast.Inspect(body, visit)
 	for i := len(deferred) - 1; i >= 0; i-- {
 		deferred[i]()
 	}
+}
+
+func isNilNode(n ast.Node) bool {
+	switch v := n.(type) {
+	case *ast.BlockStmt:
+		return v == nil
+	case ast.Expr:
+		return v == nil
+	case ast.Stmt:
+		return v == nil
+	}
+	return false
 }
 
 // collapseRepeats removes immediate repetitions of a block of events (x x -> x) until none is
@@ -601,6 +652,54 @@ func emitLocks(e *emitter, p *pkg) {
 	e.comment("(held, acquired) over all API methods and everything they reach")
 	e.raw("lockPairs", "List (Nat × Nat)", leanPairs(pairs), pairs)
 	e.raw("lockProgs", "List (String × List (Nat × Nat))", "[\n  "+strings.Join(leanProgs, ",\n  ")+"]", progs)
+	if p.name != "pa" {
+		// the Write-like methods once more, with loop markers, for the part of the method body
+		// that follows its handshake call: the top-level statements after the last one that
+		// (transitively) takes handshakeMutex. (Walking the handshake with markers as well gives
+		// programs of several hundred events; the model abstracts the handshake anyway, and the
+		// Lean side checks that the section without its markers IS the tail of the plain program,
+		// so this cut is not trusted.)
+		w2 := newLockWalker(p)
+		w2.computeTouches()
+		for _, n := range w.names { // same mutex indices as above
+			w2.lockIndex(n)
+		}
+		var secs []prog
+		var leanSecs []string
+		for _, key := range lockAPI[p.name] {
+			name := key[strings.Index(key, ".")+1:]
+			fd, ok := p.funcs[key]
+			if !ok || fd.Body == nil || (name != "Write" && name != "WriteTo") {
+				continue
+			}
+			env := w2.envOf(fd)
+			last := -1
+			w2.markLoops = false
+			for i, st := range fd.Body.List {
+				var evs []lockEv
+				var held []int
+				w2.walkBody(&ast.BlockStmt{List: []ast.Stmt{st}}, env, frame{&evs, &held}, []string{key})
+				for _, ev := range evs {
+					if ev.kind <= 1 && ev.lock == 0 {
+						last = i
+					}
+				}
+			}
+			var evs []lockEv
+			var held []int
+			w2.markLoops = true
+			w2.walkBody(&ast.BlockStmt{List: fd.Body.List[last+1:]}, env, frame{&evs, &held}, []string{key})
+			evs = collapseRepeats(evs)
+			pr := prog{Name: name}
+			for _, ev := range evs {
+				pr.Events = append(pr.Events, [2]int{ev.kind, ev.lock})
+			}
+			secs = append(secs, pr)
+			leanSecs = append(leanSecs, fmt.Sprintf("(%s, %s)", strconv.Quote(name), leanPairs(pr.Events)))
+		}
+		e.comment("Write-like methods after their handshake call, with loop markers: 10 loop-begin 11 loop-end")
+		e.raw("lockWriteSections", "List (String × List (Nat × Nat))", "[\n  "+strings.Join(leanSecs, ",\n  ")+"]", secs)
+	}
 
 	if p.name == "pa" {
 		// methods that read c.wrapped while not holding c.lock (syntactically: the method
